@@ -13,7 +13,7 @@ RULE_TEXT = ('targets = (profile, rule, options) over all rules and arithmetics 
              'display > precision, guard 0, equal precision+guard with different splits; a quarter of all elections are configured in the ballot file only and built as Election(profile) with no options argument; 8% of targets run at 4400-5200 digits). The reference report+dump+json of each target comes from a fresh '
              'subprocess that does nothing else. In one long-lived process, random histories of 1-12 other elections (constructed, counted and rendered back '
              'to back, biased to the same arithmetic class as the target with different settings) are run, then the target: its renderings must equal the '
-             'reference byte for byte (a target that ends in an error in the fresh process must end in the same kind of error). Also the same ElectionProfile object is counted twice in fresh Election objects. non-trivial = the last election of '
+             'reference byte for byte (a target that ends in an error in the fresh process must end in the same kind of error). Also the same ElectionProfile object is counted twice in fresh Election objects, and Droop.main is called in sequences (one reused options dict with only the path replaced; ballot files with equal timestamps presented under one path): each call must print what the same file prints on its own. non-trivial = the last election of '
              'the history used the target\'s arithmetic class with different precision / guard / display; distinct = (target, history) hashes')
 ASSUMPTIONS = ['each election is constructed, counted and reported before the next is constructed (the property\'s own scope)']
 MIN_COUNTERS = {'targets': 16, 'histories_compared': 100, 'same_class_different_settings': 40, 'recounts_compared': 30}
@@ -117,7 +117,81 @@ def first_diff(a, b):
     return None
 
 
+def main_sequences(ctx):
+    """
+    the package's own driver, called back to back in one process: a caller may keep one options dict and only replace `path`,
+    and the ballot files may reach it under one path with their timestamps preserved - each call must come out as the same
+    file does on its own with a fresh dict
+    """
+    import os, io, tempfile, contextlib, importlib.util
+    from ..harness import REPO
+    from .c17 import PROFILE
+    if ctx.shard >= 6:
+        return
+    spec = importlib.util.spec_from_file_location('Droop_cli_c20', os.path.join(REPO, 'Droop.py'))
+    cli = importlib.util.module_from_spec(spec)
+    spec.loader.exec_module(cli)
+    out = os.path.join(os.path.dirname(os.path.dirname(os.path.dirname(os.path.abspath(__file__)))), 'out')
+    rng = ctx.case_rng(-17)
+    variants = ['', '[droop rule=scotland]', '[droop rule=wigm arithmetic=fixed precision=3]', '[droop meek omega=4]', '[droop rule=wigm-prf dump]',
+                '[droop rule=mpls]', '[droop warren arithmetic=fixed precision=5 json]', '[droop rule=qpq]']
+    paths = []
+    try:
+        for v in variants:
+            fd, path = tempfile.mkstemp(suffix='.blt', dir=out)
+            with os.fdopen(fd, 'w') as f:
+                f.write(PROFILE % v)
+            paths.append(path)
+        # the ballot files carry one and the same modification time, as files unpacked from one archive do; half of the sequences
+        # present them under a single path, copied over one another with their timestamps preserved (cp -p, rsync -t)
+        import shutil
+        t0 = os.path.getmtime(paths[0])
+        for path in paths:
+            os.utime(path, (t0, t0))
+        fd, current = tempfile.mkstemp(suffix='.blt', dir=out)
+        os.close(fd)
+        paths.append(current)
+
+        def run(d):
+            with contextlib.redirect_stdout(io.StringIO()):
+                try:
+                    return ('ok', cli.main(d))
+                except Exception as e:      # pylint: disable=broad-except
+                    return ('raised', type(e).__name__)
+        for _ in range(6):
+            base_extra = dict(rng.choice([{}, {}, dict(dump=True), dict(display=3)]))
+            shared = dict(base_extra)
+            seq = [rng.randrange(len(variants)) for _ in range(rng.randint(3, 6))]
+            one_path = rng.random() < 0.5
+            for n, k in enumerate(seq):
+                if one_path:
+                    shutil.copy2(paths[k], current)
+                    shared['path'] = current
+                    ctx.count('main_calls_on_a_path_overwritten_with_timestamps_preserved')
+                else:
+                    shared['path'] = paths[k]
+                got = run(shared)
+                fresh = run(dict(base_extra, path=paths[k]))
+                # the JSON rendering lists the caller's options, the path among them: compare with the path masked
+                got = (got[0], got[1].replace(shared['path'], '<path>'))
+                fresh = (fresh[0], fresh[1].replace(paths[k], '<path>'))
+                ctx.count('main_calls_with_a_reused_options_dict')
+                ctx.evaluated()
+                if got != fresh:
+                    ctx.violation('main-output-depends-on-earlier-calls',
+                                  'Droop.main on %r after the calls %r with one reused options dict: %s; with a fresh dict: %s'
+                                  % (variants[k], [variants[j] for j in seq[:n]], got[0] if got[0] == 'raised' else (got[1][:160]),
+                                     fresh[0] + ' ' + (fresh[1][:160])), dict(kind='main-sequence', sequence=[variants[j] for j in seq[:n + 1]], extra=base_extra))
+                    break
+    finally:
+        for path in paths:
+            if os.path.exists(path):
+                os.unlink(path)
+
+
+
 def shard(ctx):
+    main_sequences(ctx)
     n_targets = 0
     i = 0
     budget = 5.0
@@ -224,6 +298,11 @@ def shard(ctx):
 
 
 def replay(case):
+    if case.get('kind') == 'main-sequence':
+        from ..engine import Ctx
+        ctx = Ctx('C20', 'quick', 0, 0, 1, 60)
+        main_sequences(ctx)
+        return [(v['key'], v['msg']) for v in ctx.violations]
     ref = reference(case['blt'], case['options'])
     if ref is None or ('error' in ref and ref['error'].startswith('subprocess failed')):
         return []
